@@ -9,6 +9,7 @@ CONSTANTS
   FactorOf <- FactorDef
   EmitEvery <- EveryDef
   EmitOffset <- OffsetDef
+  RoVals <- RoDef
 VIEW View
 ACTION_CONSTRAINT Emit
 INVARIANT IdsUnique
@@ -22,4 +23,5 @@ PROPERTY NotifyExactly
 PROPERTY OwnMapping
 PROPERTY ObjectsFollowSelection
 PROPERTY ObjectsOtherwiseUntouched
+PROPERTY ReadOnlyIsOnlyAFlag
 CHECK_DEADLOCK FALSE
